@@ -190,7 +190,7 @@ class DepthDataNative(Contract):
     has_native = True
     props = ("C18",)
     bounded_scope = ("sequences of 1-4 add_data calls mixing depth logs and interval logs on one hole (unsorted, repeated, nearly equal depths; identical, nested, overlapping, "
-                     "contiguous and disjoint intervals; logs added together or one by one): after every call each vertex with a depth sits at the reference position of that depth, "
+                     "contiguous and disjoint intervals; logs added together, one by one in one session, or one by one with the file closed and re-opened before each call): after every call each vertex with a depth sits at the reference position of that depth, "
                      "each interval cell joins the positions of its from and to depths, each distinct interval is listed once and every value stays attached to its depth or interval "
                      "(28 fixed sequences, 4 mixing interval and depth logs in one call, 4 with nearly equal depths merged under an explicit collocation distance, + 40 seeded in the quick tier, 600 in the thorough tier)")
 
@@ -217,6 +217,8 @@ class DepthDataNative(Contract):
         for steps in self.FIXED:
             for together in (True, False):
                 yield {"steps": steps, "together": together}
+            # the same sequences with the file closed and re-opened between the calls
+            yield {"steps": steps, "together": False, "reopen": True}
         # depths / intervals close to, but not equal to, earlier ones, merged under an explicit tolerance:
         # a merged sample keeps the position and the label of the vertex it joins
         near = [
@@ -297,8 +299,16 @@ class DepthDataNative(Contract):
         sv = np.array([[5.0, 30.0, -80.0], [40.0, 45.0, -60.0], [90.0, 120.0, -45.0]])
         collar = [10.0, 20.0, 30.0]
         steps = [tuple(s_) for s_ in case["steps"]]
-        with Workspace() as ws:
+        import os
+        import shutil
+        import tempfile
+
+        tmp = tempfile.mkdtemp() if case.get("reopen") else None
+        ws = Workspace.create(os.path.join(tmp, "dh.geoh5")) if tmp else Workspace()
+        box = [ws]
+        try:
             dh = Drillhole.create(ws, collar=np.array(collar), surveys=sv)
+            uid = dh.uid
             written_d, written_i = {}, {}
             specs = []
             flat = []
@@ -337,11 +347,29 @@ class DepthDataNative(Contract):
                     payload.update(sp)
                     name = next(iter(sp))
                     (done_d if kind == "depth" else done_i)[name] = (written_d if kind == "depth" else written_i)[name]
+                if tmp and n_ > 0:
+                    # a later session: the hole is read back from the file (nothing cached) before more data are added
+                    del dh
+                    box[0].close()
+                    box[0] = Workspace(os.path.join(tmp, "dh.geoh5"), mode="r+")
+                    dh = box[0].get_entity(uid)[0]
                 dh.add_data(payload, **ckw)
                 bad = self._check(dh, collar, sv, done_d, done_i, case, f"after call {n_ + 1}")
                 if bad:
                     return bad
-        return None
+            if tmp:
+                del dh
+                box[0].close()
+                box[0] = Workspace(os.path.join(tmp, "dh.geoh5"), mode="r")
+                return self._check(box[0].get_entity(uid)[0], collar, sv, done_d, done_i, case, "after re-opening the file")
+            return None
+        finally:
+            try:
+                box[0].close()
+            except Exception:
+                pass
+            if tmp:
+                shutil.rmtree(tmp, ignore_errors=True)
 
 
 CONTRACTS = [ComputeDeviation, Locations] + RESETS + [PathNative, DepthDataNative]
